@@ -91,6 +91,40 @@ def alphabet(w, tier):
                 m.set_words(0, [0, 3 * c['w'] + c['w'].bit_length(), 0, 0, 0, 0, 0, 0])
                 return m.run(rd, lambda b: None, EOFError, last_ops_length=ring)
             add(f'run(read returns {label},ring={ring})', run_fresh)
+    class Reentrant:
+        """a sequence whose item access runs / re-initialises / extends the memory it is being loaded into (finding F23)"""
+
+        def __init__(self, m, what, n=40):
+            self.m, self.what, self.n = m, what, n
+
+        def __len__(self):
+            return self.n
+
+        def __getitem__(self, i):
+            if i >= self.n:
+                raise IndexError(i)
+            if i == 1:
+                try:
+                    if self.what == 'run':
+                        import signal
+                        signal.setitimer(signal.ITIMER_REAL, 0.4)   # the half-loaded image may well loop forever
+                        try:
+                            self.m.run(lambda: False, lambda b: None, EOFError)
+                        finally:
+                            signal.setitimer(signal.ITIMER_REAL, 0)
+                    elif self.what == 'reinit':
+                        self.m.__init__(64)
+                    elif self.what == 'add_segment':
+                        self.m.add_segment(1 << 40, 4)   # (not 2^30: a flat window of 8 GiB is allocatable, and under ASan it gets the worker killed)
+                except Exception:  # noqa  (Horizon too: the nested run was cut off, the load goes on)
+                    pass
+            return 7
+    for what in ('run', 'reinit', 'add_segment'):
+        for a in (0, (1 << 14) - 2, 1 << 20):
+            def reentrant(m, c, what=what, a=a):
+                m.add_segment(1 << 20, 64)
+                return m.set_words(a, Reentrant(m, what))
+            add(f'set_words({a},sequence that does {what})', reentrant)
     add('__init__ again', lambda m, c: m.__init__(c['w']))
     add('__init__ other width', lambda m, c: m.__init__(8 if c['w'] != 8 else 64, flat_max_words=3))
     add('__init__ rejected (bad width)', lambda m, c: m.__init__(7))
